@@ -301,20 +301,20 @@ func ruleD5(c *Ctx, id string) {
 
 // disciplines of the struct types declared in the server packages
 var disciplines = map[string]string{
-	"fstxn.FsTxn":        "txn-local",
-	"alloctxn.AllocTxn":  "txn-local",
-	"inode.Inode":        "inode-lock",
-	"dcache.Dcache":      "inode-lock",
-	"dcache.Dentry":      "value",
-	"cache.Cslot":        "inode-lock",
-	"cache.Cache":        "mutex",
-	"cache.entry":        "mutex",
+	"fstxn.FsTxn":         "txn-local",
+	"alloctxn.AllocTxn":   "txn-local",
+	"inode.Inode":         "inode-lock",
+	"dcache.Dcache":       "inode-lock",
+	"dcache.Dentry":       "value",
+	"cache.Cslot":         "inode-lock",
+	"cache.Cache":         "mutex",
+	"cache.entry":         "mutex",
 	"shrinker.ShrinkerSt": "mutex",
-	"nfs.Nfs":            "immutable",
-	"fstxn.FsState":      "immutable",
-	"super.FsSuper":      "immutable",
-	"fh.Fh":              "value",
-	"dir.dirEnt":         "value",
+	"nfs.Nfs":             "immutable",
+	"fstxn.FsState":       "immutable",
+	"super.FsSuper":       "immutable",
+	"fh.Fh":               "value",
+	"dir.dirEnt":          "value",
 }
 
 func ruleD6(c *Ctx, id string) {
